@@ -135,7 +135,7 @@ type docxWriter struct{}
 func (docxWriter) Ext() string { return ".docx" }
 func (docxWriter) Write(d *logical.Doc, r *rand.Rand, neutral map[string]bool) []byte {
 	return ooxml.WriteDocx(d, ooxml.DocxOptions{Neutral: neutral, Pretty: r.Intn(2) == 0, Store: r.Intn(4) == 0,
-		BodyStyle: []string{"", "Normal", "BodyText"}[r.Intn(3)], OutlineKeepsBodyStyle: r.Intn(2) == 0})
+		BodyStyle: []string{"", "Normal", "BodyText", "BodyText"}[r.Intn(4)], OutlineKeepsBodyStyle: r.Intn(4) > 0})
 }
 
 type odtWriter struct{}
@@ -492,7 +492,7 @@ func (ragBackend) Markdown(c *fw.Ctx, id string, d *logical.Doc, r *rand.Rand, n
 // here as FileBackend(name, writer, profile, triggers) once their writers exist.
 func Backends() []Backend {
 	return []Backend{
-		FileBackend("docx", docxWriter{}, wpProfile([]string{"builtin", "builtin", "custom", "basedon", "localized", "outline-style", "outline-direct"}), nil),
+		FileBackend("docx", docxWriter{}, wpProfile([]string{"builtin", "builtin", "custom", "basedon", "localized", "outline-style", "outline-direct", "outline-direct"}), nil),
 		FileBackend("odt", odtWriter{}, wpProfile([]string{"h", "h", "h-custom", "h-nolevelstyle", "h-mismatch", "h-nostyle"}), nil),
 		tableBackend{},
 		ragBackend{},
